@@ -741,7 +741,9 @@ def parse_as_ast(
 
     else:
         assert isinstance(ast_source, ast.AST)
-        return lambda_unwrap(ast_source)
+        # Work on a copy: type following fills in arguments in place, and the caller may
+        # hand the same ast to several queries.
+        return lambda_unwrap(copy.deepcopy(ast_source))
 
 
 def scan_for_metadata(a: ast.AST, callback: Callable[[ast.arg], None]):
